@@ -37,6 +37,10 @@ def call_prim(ip, name, args, kwargs):
         return ip.call(func, [datum, StarArgs(a)], {"**": kw})
     if name == "forall_idx":
         return _forall(ip, args[0], args[1])
+    if name == "is_prefix":
+        a, b = ip.seq_of(args[0]) if not isinstance(args[0], Z) else V.seq_items(args[0].t), \
+            ip.seq_of(args[1]) if not isinstance(args[1], Z) else V.seq_items(args[1].t)
+        return ZBool(z3.PrefixOf(a, b))
     if name == "Binds":
         return _binds(ip, *args)
     if name == "implies":
